@@ -19,6 +19,7 @@ package queue
 
 import (
 	"fmt"
+	"os"
 	"path/filepath"
 	"sync"
 
@@ -26,6 +27,7 @@ import (
 	"go.uber.org/atomic"
 
 	"github.com/lindb/lindb/pkg/queue/page"
+	"github.com/lindb/lindb/pkg/stream"
 )
 
 //go:generate mockgen -source ./consumer_group.go -destination ./consumer_group_mock.go -package queue
@@ -94,7 +96,16 @@ func NewConsumerGroup(parent, fanOutPath string, q FanOutQueue) (ConsumerGroup, 
 		}
 	}()
 
-	hasMeta := existFunc(filepath.Join(name, fmt.Sprintf("%d.bat", metaPageIndex)))
+	metaFile := filepath.Join(name, fmt.Sprintf("%d.bat", metaPageIndex))
+	hasMeta := existFunc(metaFile)
+	if !hasMeta {
+		// the page file of a new group appears with its initial positions in it: acquiring the page creates a zero
+		// filled file first, and a process that dies before the positions are stored would leave a file which
+		// reads as "sequence 0 consumed and acknowledged" the next time the group is opened.
+		if err = initConsumerGroupMeta(metaFile); err != nil {
+			return nil, err
+		}
+	}
 
 	metaPage, err := metaPageFct.AcquirePage(metaPageIndex)
 	if err != nil {
@@ -137,6 +148,20 @@ func NewConsumerGroup(parent, fanOutPath string, q FanOutQueue) (ConsumerGroup, 
 		consumedSeq:     atomic.NewInt64(consumedSeq),
 		acknowledgedSeq: atomic.NewInt64(ackSeq),
 	}, nil
+}
+
+// initConsumerGroupMeta creates the meta page file of a new group holding "nothing consumed, nothing acknowledged",
+// the file gets its name when its content is complete(write temp file, then rename).
+func initConsumerGroupMeta(metaFile string) error {
+	buf := make([]byte, consumerGroupMetaSize)
+	noSeq := int64(-1)
+	stream.PutUint64(buf, consumerGroupConsumedSeqOffset, uint64(noSeq))
+	stream.PutUint64(buf, consumerGroupAcknowledgedSeqOffset, uint64(noSeq))
+	tmp := metaFile + ".tmp"
+	if err := os.WriteFile(tmp, buf, 0644); err != nil {
+		return err
+	}
+	return os.Rename(tmp, metaFile)
 }
 
 // Name returns a unique name for ConsumerGroup in a FanOutQueue.
